@@ -1,0 +1,39 @@
+//go:build verif
+
+// Contracts for govc (see /verif/DESIGN.md). Comment-only: no executable code with or without the tag.
+
+package regprocessor
+
+//@ import sync "sync"
+//@ import phantoms "github.com/refraction-networking/conjure/pkg/phantoms"
+//@ import pb "github.com/refraction-networking/conjure/proto"
+
+// Interface contract of the phantom selector as the registrar uses it (the station-side implementation
+// (*phantoms.PhantomIPSelector).Select is verified against its own, stronger contract under C14).
+//@ func (s ipSelector) Select(seed []byte, gen uint, ver uint, v6 bool) (*phantoms.PhantomIP, error)
+//@   ensures result1 == nil ==> result0 != nil && result0.ip != nil
+//@   ensures result1 == nil && !v6 ==> len(*result0.ip) == 4
+//@   assigns nothing
+
+// C13: lock discipline on selectorMutex (L1 released on every return, L2 no recursive read lock,
+// L4 both selections of a dual-stack request happen inside one uninterrupted hold and use one selector).
+//@ func (p *RegProcessor) processBdReq(c2sPayload *pb.C2SWrapper) (*pb.RegistrationResponse, error)
+//@   requires p != nil && !held(&p.selectorMutex) && rheld(&p.selectorMutex) == 0
+//@   ensures @C13: !held(&p.selectorMutex) && rheld(&p.selectorMutex) == 0
+//@   atcall Select#1 before: assert @C13: rheld(&p.selectorMutex) > 0
+//@   atcall Select#1 before: snap a1 := acq(&p.selectorMutex)
+//@   atcall Select#1 before: snap s1 := p.ipSelector
+//@   atcall Select#2 before: assert @C13: rheld(&p.selectorMutex) > 0
+//@   atcall Select#2 before: assert @C13: defined(a1) ==> acq(&p.selectorMutex) == a1 && p.ipSelector == s1
+//@ loop 1:
+//@   invariant true
+//@ loop 2:
+//@   invariant true
+//@ loop 3:
+//@   invariant true
+
+//@ func (p *RegProcessor) ReloadSubnets() error
+//@   requires p != nil && !held(&p.selectorMutex) && rheld(&p.selectorMutex) == 0
+//@   ensures @C13: !held(&p.selectorMutex) && rheld(&p.selectorMutex) == 0
+//@   ensures @C13: result != nil ==> p.ipSelector == old(p.ipSelector)
+//@   atcall GetPhantomSubnetSelector before: assert @C13: !held(&p.selectorMutex)
